@@ -3,6 +3,7 @@ mutated media and playlists, vs Model/ClientContent.v."""
 import glob
 import json
 import os
+import re
 import shutil
 import vlib
 
@@ -34,10 +35,9 @@ def _fuzz_playlist_parsers(ctx, t, seconds):
     scratch = os.path.join(ctx["work"], "fuzzrepo")
     vlib.run(["rm", "-rf", scratch])
     shutil.copytree(vlib.REPO, scratch, ignore=shutil.ignore_patterns(".git"))
-    cache = os.path.join(ctx["work"], "fuzzcache")
     for target in ("FuzzPlaylistUnmarshal", "FuzzMediaUnmarshal", "FuzzMultivariantUnmarshal"):
-        rc, out = vlib.run(["go", "test", "-run", "^$", "-fuzz", "^" + target + "$", "-fuzztime", "%ds" % seconds,
-                            "-test.fuzzcachedir", cache, "./pkg/playlist"],
+        rc, out = vlib.run(["go", "test", "./pkg/playlist", "-run", "^$", "-fuzz", "^" + target + "$",
+                            "-fuzztime", "%ds" % seconds],
                            cwd=scratch, env=vlib.go_env(), timeout=seconds + 600)
         t.extra.setdefault("native_fuzz", {})[target] = {"rc": rc, "tail": out[-300:]}
         if rc != 0 and "Failing input written to" in out:
@@ -48,7 +48,7 @@ def _fuzz_playlist_parsers(ctx, t, seconds):
                                       "input": {"fuzz_target": target, "corpus_file": body}})
         elif rc != 0:
             t.errors.append("go test -fuzz %s failed to run: %s" % (target, out[-800:]))
-    vlib.run(["rm", "-rf", scratch, cache])
+    vlib.run(["rm", "-rf", scratch])
 
 
 def run(ctx):
@@ -83,13 +83,21 @@ def run(ctx):
     t.min_nontrivial = 0 if ctx["replay"] else 150
     t.extra["model_compared_streams"] = r["distribution"].get("compared", 0)
     if ctx["model_available"] and not ctx["widen"]:
+        unstable = 0
         kinds = {1: "timing-unstable-case", 2: "tracks-exposed", 3: "end-class", 4: "units-delivered", 5: "decode-errors"}
         for res in vlib.eval_shards(out):
             if not res["ok"]:
                 t.errors.append("model evaluation failed on %s: %s" % (res["shard"], res["error"]))
                 continue
             shard = int(os.path.basename(res["shard"])[6:-2])
+            reasons = {int(i): [int(x) for x in re.findall(r"\d+", body)]
+                       for i, body in re.findall(r"\((\d+)(?:%nat)?\s*,\s*\[([^\]]*)\]\)", res.get("raw", ""))}
             for idx in res["bad"]:
+                if reasons.get(idx) == [1]:
+                    # the model's class depends on the wall clock within [0, 2 s] (a sample 8-12 s in the future):
+                    # not comparable; the implementation's class agreed with the model at elapsed = 0
+                    unstable += 1
+                    continue
                 pc = [c for c in r.get("pcases") or [] if c["shard"] == shard and c["index"] == idx]
                 if pc:
                     t.mismatches.append({"observable": "playlist-index-expressions", "input": {"call": pc[0]["call"]},
@@ -100,6 +108,10 @@ def run(ctx):
                                      "detail": "observed class %s %s, faults %s; reasons (%s): %s" % (
                                          c["class"], c["ends"], c["faults"], kinds, res.get("raw", "")[:400])})
         t.mismatches.sort(key=lambda m: len(json.dumps(m["input"])))
+        t.extra["timing_unstable_cases_excluded"] = unstable
+        if unstable * 100 > max(1, t.extra["model_compared_streams"]):
+            t.errors.append("%d of %d compared streams are timing-unstable: the generator must keep sample times away from the 10 s window"
+                            % (unstable, t.extra["model_compared_streams"]))
     if ctx["tier"] == "thorough" and not ctx["replay"] and not ctx["widen"]:
         _fuzz_playlist_parsers(ctx, t, 60)
     return t
